@@ -479,12 +479,75 @@ fn far_peer_advertisements(run: &Run) {
     let _ = std::fs::remove_dir_all(&root);
 }
 
+
+/// A node whose store is full (capacity 2, a third and farther record was refused, so the fetcher was told the
+/// farthest acceptable distance) and whose *farthest* record is a mutable record the neighbour holds in another
+/// version: the two versions must still converge (updating a held record needs no free slot and evicts nothing).
+fn full_node_divergence(run: &Run, bound: usize) {
+    let fx = rec::reg_fixture(5, b"c09-reg");
+    let t = [rec::tx(5, 1, 5), rec::tx(5, 2, 5)];
+    let tk = rec::tx_key(&t[0]);
+    let cases: Vec<(&'static str, &'static str, RecordKey, Record, Record)> = vec![
+        ("full node A (capacity 2) whose farthest record is a register that B holds with other ops", "register", rec::reg_key(&fx.base), rec::reg_record(&fx.with_ops(&[0])), rec::reg_record(&fx.with_ops(&[1]))),
+        ("full node A (capacity 2) whose farthest record is a transaction set that B holds with another entry", "transaction", tk.clone(), rec::txs_record(tk.clone(), &[t[0].clone()]), rec::txs_record(tk.clone(), &[t[1].clone()])),
+    ];
+    for (name, kind, key, on_a, on_b) in cases {
+        let sc = Scenario { name, nodes: 2, seeds: vec![(0, on_a.clone()), (1, on_b.clone())], key: key.clone(), kind, first_write_pending: false, late: vec![], spacing: 120, rounds: 3 };
+        let want = expected_converged(&sc);
+        explore(
+            run,
+            SchedOpts { label: name.to_string(), bound, wall_cap: Some(Duration::from_secs(run.pick(30, 900))), exec_cap: None },
+            |ch: &mut Chooser| {
+                let mut cl = Cluster::new(2);
+                let me = NetworkAddress::from_peer(cl.ids[0]);
+                let d_f = me.distance(&NetworkAddress::from_record_key(&key));
+                let (mut near, mut far) = (None, None);
+                for i in 0..=255u8 {
+                    let c = rec::chunk(&[b'c', b'0', b'9', b'f', i]);
+                    let d = me.distance(&NetworkAddress::from_chunk_address(*c.address()));
+                    if d < d_f && near.is_none() {
+                        near = Some(c);
+                    } else if d > d_f && far.is_none() {
+                        far = Some(c);
+                    }
+                }
+                let (Some(near), Some(far)) = (near, far) else { run.machinery_error("no chunk nearer / farther than the mutable record found among 256 candidates") };
+                cl.nodes[0].set_max_records(2);
+                cl.seed(0, on_a.clone());
+                cl.seed(0, rec::chunk_record(&near));
+                cl.seed(0, rec::chunk_record(&far)); // refused for lack of space: the driver tells the fetcher the node is full
+                let listed = cl.nodes[0].listed();
+                let told = cl.nodes[0].d.driver.verif_fetcher_farthest();
+                if listed.len() != 2 || !cl.nodes[0].contains(&key) || cl.nodes[0].contains(&rec::chunk_key(&far)) || told != Some(d_f) {
+                    run.machinery_error(&format!("full-node set-up not reached: A lists {listed:?}, fetcher's farthest acceptable distance {told:?}, distance of the mutable record {d_f:?}"));
+                }
+                cl.seed(1, on_b.clone());
+                for _ in 0..sc.rounds {
+                    cl.round(ch);
+                }
+                let got: Vec<String> = (0..2).map(|i| content(&mut cl.nodes[i], &key, kind)).collect();
+                run.outcome(format!("{name}:{got:?}").as_bytes());
+                let witness = json!({"engine":"sched","scenario": name, "choices": ch.choices(), "deviations": ch.deviations(), "held_after": got});
+                for (i, g) in got.iter().enumerate() {
+                    if *g != want {
+                        run.violation("mutable-records-converge", if kind == "register" { "register-versions-differ" } else { "transaction-versions-differ" }, format!("{name}: after {} rounds node {i} holds {g}, expected {want}", sc.rounds), witness.clone());
+                    }
+                }
+                // the refused record stays out and the nearer chunk stays in: convergence must not cost the full node a record
+                if !cl.nodes[0].contains(&rec::chunk_key(&near)) {
+                    run.violation("mutable-records-converge", "full-node-lost-a-record", format!("{name}: merging the neighbour's version evicted the nearer chunk"), witness.clone());
+                }
+            },
+        );
+    }
+}
+
 pub fn main(tier: Option<&str>) {
     let run = Run::new("C09", "model_checking", tier);
     run.rule(
         "2-3 real nodes (SwarmDriver + Node) wired in-process, mutual routing-table neighbours; seeds through the real replication-store \
          path: a chunk on A only, divergent registers (disjoint and nested op sets), divergent transaction sets (2 and 3 nodes), scratchpads \
-         with counters 1 and 3, a scratchpad on A only, the same with A's disk write held back during round 1, and records accepted by A after the first round; then 3 rounds of \
+         with counters 1 and 3, a scratchpad on A only, the same with A's disk write held back during round 1, records accepted by A after the first round, and a full node A (capacity 2, fetcher told so by a refused third record) whose farthest record is a register / transaction set that B holds in another version; then 3 rounds of \
          interval replication on every node 120 s apart (6 rounds 31 s apart / 4 rounds 46 s apart for the late-record scenarios); every \
          delivery order of the in-flight requests/responses with <=1(2) deviations from FIFO. Plus advertisements from a stranger and from self, and — on a node whose routing table holds 45 peers — one-key (record next to the sender) and two-key lists from every peer outside / among the K closest.",
     );
@@ -494,6 +557,7 @@ pub fn main(tier: Option<&str>) {
     for sc in scenarios() {
         run_scenario(&run, &sc, bound, sc.rounds);
     }
+    full_node_divergence(&run, bound);
     foreign_advertisements(&run);
     far_peer_advertisements(&run);
     run.finish();
